@@ -15,6 +15,7 @@ import (
 	"time"
 
 	"gosmt/interp"
+	"os/exec"
 
 	"golang.org/x/tools/go/packages"
 	"golang.org/x/tools/go/ssa"
@@ -22,38 +23,38 @@ import (
 )
 
 type HarnessSpec struct {
-	Name     string            `json:"name"`
-	Pkg      string            `json:"pkg"`
-	Entry    string            `json:"entry"`
-	What     string            `json:"what"`
-	Quick    [][]int64         `json:"quick"`
-	Thorough [][]int64         `json:"thorough"`
-	ArgNames []string          `json:"arg_names"`
-	Reach    []string          `json:"reach"`
-	Config   map[string]interface{} `json:"config"`
+	Name           string                 `json:"name"`
+	Pkg            string                 `json:"pkg"`
+	Entry          string                 `json:"entry"`
+	What           string                 `json:"what"`
+	Quick          [][]int64              `json:"quick"`
+	Thorough       [][]int64              `json:"thorough"`
+	ArgNames       []string               `json:"arg_names"`
+	Reach          []string               `json:"reach"`
+	Config         map[string]interface{} `json:"config"`
 	ThoroughConfig map[string]interface{} `json:"thorough_config"`
-	Bounds   map[string]string `json:"bounds"`
-	Outside  []string          `json:"outside"`
-	Assumptions []string       `json:"assumptions"`
-	NativeReplay *bool         `json:"native_replay"`
-	NativeValidate *bool       `json:"native_validate"` // compare sampled clean paths with the native build (default: yes)
-	NativeTries  int           `json:"native_tries"` // native replays of a schedule-dependent counterexample (stress loop)
+	Bounds         map[string]string      `json:"bounds"`
+	Outside        []string               `json:"outside"`
+	Assumptions    []string               `json:"assumptions"`
+	NativeReplay   *bool                  `json:"native_replay"`
+	NativeValidate *bool                  `json:"native_validate"` // compare sampled clean paths with the native build (default: yes)
+	NativeTries    int                    `json:"native_tries"`    // native replays of a schedule-dependent counterexample (stress loop)
 }
 
 func (h *HarnessSpec) native() bool { return h.NativeReplay == nil || *h.NativeReplay }
 
 type Spec struct {
-	Property  string        `json:"property"`
-	Level     string        `json:"level"`
-	Harnesses []HarnessSpec `json:"harnesses"`
-	Assumptions []string    `json:"assumptions"`
-	TrustedBase []string    `json:"trusted_base"`
+	Property    string        `json:"property"`
+	Level       string        `json:"level"`
+	Harnesses   []HarnessSpec `json:"harnesses"`
+	Assumptions []string      `json:"assumptions"`
+	TrustedBase []string      `json:"trusted_base"`
 }
 
 type KnownFinding struct {
-	ID       string `json:"id"`
-	Property string `json:"property"`
-	What     string `json:"what"`
+	ID           string `json:"id"`
+	Property     string `json:"property"`
+	What         string `json:"what"`
 	IdentifiedBy string `json:"identified_by"`
 }
 
@@ -95,11 +96,11 @@ func main() {
 // ---------------------------------------------------------------- loading
 
 type loaded struct {
-	prog  *ssa.Program
-	pkgs  map[string]*ssa.Package
-	repl  map[string]map[string]string // pkg path -> target -> harness func name
+	prog   *ssa.Program
+	pkgs   map[string]*ssa.Package
+	repl   map[string]map[string]string // pkg path -> target -> harness func name
 	hashes map[string]string
-	fset  interface{}
+	fset   interface{}
 }
 
 // readHarnessFiles returns overlay (abs path -> content) for all *.go under dirs
@@ -441,6 +442,8 @@ func cmdCheck(argv []string) int {
 	stubs := map[string]int{}
 	once := map[string]int{}
 	inconcl := map[string]int{}
+	reduced := map[string]int{}
+	reducedBounds = reduced
 	findings := map[string]int{}
 	findingSample := map[string]map[string]uint64{}
 	reachAll := map[string]bool{}
@@ -493,6 +496,12 @@ func cmdCheck(argv []string) int {
 			once[k] += v
 		}
 		for k, v := range ex.Inconclusive {
+			if k == "wall-clock budget exhausted" || k == "path: run stopped" {
+				// a resource limit that depends on machine load, not on the code: the
+				// instance is reported as covered up to the paths explored (reduced bound)
+				reduced[fmt.Sprintf("%s%v", r.h.Name, r.args)] = int(ex.Paths)
+				continue
+			}
 			inconcl[fmt.Sprintf("%s%v: %s", r.h.Name, r.args, k)] += v
 		}
 		for k, v := range ex.Findings {
@@ -670,6 +679,16 @@ func cmdCheck(argv []string) int {
 		fmt.Printf("INCONCLUSIVE property=%s vacuity: reach labels never hit: %v\n", *prop, missingReach)
 		exit = 3
 	}
+	if len(reduced) > 0 {
+		keys := make([]string, 0, len(reduced))
+		for k := range reduced {
+			keys = append(keys, k)
+		}
+		sort.Strings(keys)
+		for _, k := range keys {
+			fmt.Printf("REDUCED-BOUND property=%s %s: wall-clock budget reached after %d paths; the paths explored held, the rest of this instance is not covered by this run\n", *prop, k, reduced[k])
+		}
+	}
 	if exit == 0 && len(inconcl) > 0 {
 		fmt.Printf("INCONCLUSIVE property=%s (bounds not covered cleanly):\n", *prop)
 		keys := make([]string, 0, len(inconcl))
@@ -722,6 +741,17 @@ func modelString(m map[string]uint64) string {
 		fmt.Fprintf(&sb, "%s=%#x", k, m[k])
 	}
 	return sb.String()
+}
+
+var reducedBounds map[string]int
+
+func solverVersion() string {
+	cmd := interp.SolverCmd()
+	out, err := exec.Command(cmd[0], "--version").Output()
+	if err != nil {
+		return strings.Join(cmd, " ")
+	}
+	return strings.Join(cmd, " ") + " (" + strings.TrimSpace(string(out)) + ")"
 }
 
 func writeEvidence(prop, tier string, seed int64, spec *Spec, prog *ssa.Program, states, transitions, obligations, discharged, instrs int64,
@@ -802,17 +832,18 @@ func writeEvidence(prop, tier string, seed int64, spec *Spec, prog *ssa.Program,
 		"states": states, "transitions": transitions, "traces_validated_against_impl": validated,
 		"samples": samples, "obligations": obligations, "discharged": discharged,
 		"evaluations": states, "distinct_nontrivial": states,
-		"rule": "one evaluation = one feasible symbolic path of a harness (distinct decision trace); each path covers every value of the symbolic inputs satisfying its path condition",
-		"queries": map[string]int{"sat": sat, "unsat": unsat, "unknown": unknown},
+		"rule":          "one evaluation = one feasible symbolic path of a harness (distinct decision trace); each path covers every value of the symbolic inputs satisfying its path condition",
+		"queries":       map[string]int{"sat": sat, "unsat": unsat, "unknown": unknown},
 		"solver_time_s": round2(solverTime.Seconds()), "instructions_interpreted": instrs,
 		"functions_encoded": dtailFns, "other_functions_from_ssa": otherFns,
 		"intrinsics": keysOf(intr), "stubs": keysOf(stubs), "notes": keysOf(once),
 		"reach_witnesses": rk, "bounds": bounds, "outside_the_claim": outside,
 		"instances": insts, "known_findings_seen": keysOf(findings), "inconclusive": keysOf(inconcl),
-		"paths_cut_by_budget": len(inconcl), "exhaustive": len(inconcl) == 0,
-		"checker_cmd": "z3 -in (4.8.12), SMT-LIB2 over one pipe per worker", "trusted_base": spec.TrustedBase,
+		"paths_cut_by_budget": len(inconcl), "exhaustive": len(inconcl) == 0 && len(reducedBounds) == 0,
+		"reduced_bounds": reducedBounds,
+		"checker_cmd":    solverVersion() + ", SMT-LIB2 over one pipe per worker", "trusted_base": spec.TrustedBase,
 		"explanation": "bounded symbolic execution of the real functions from go/ssa; every branch and assertion decided by the SMT solver; bounds listed under 'bounds'",
-		"exit": exit,
+		"exit":        exit,
 	}
 	ev := map[string]interface{}{
 		"property_id": prop, "tier": tier, "seed": seed, "level": level, "coverage": cov,
